@@ -62,6 +62,8 @@ pub enum Prop {
 #[derive(Default, Clone, Debug)]
 struct InstState {
     found: bool,
+    /// ServiceFound was delivered, no ServiceResolved and no ServiceRemoved since
+    found_only: bool,
     reported: bool,
     removed_at: Option<u64>,
 }
@@ -223,6 +225,21 @@ impl Scn {
         if self.prop == Prop::C05 {
             for (inst, st) in run.insts.clone() {
                 if !st.reported {
+                    // an instance the client only knows by ServiceFound is withdrawn when its PTR goes
+                    if st.found_only {
+                        let recs = run.store.records_at(now);
+                        let mut cands: Vec<u64> = recs.iter().map(|r| r.expiry).filter(|x| *x > prev && *x <= now).collect();
+                        cands.sort_unstable();
+                        cands.dedup();
+                        for x in cands {
+                            let before = inst_view(&run.store, &ty(), &inst, x - 1, 0);
+                            let after = inst_view(&run.store, &ty(), &inst, x, 0);
+                            if !before.ptrs.is_empty() && after.ptrs.is_empty() {
+                                lapses.push((inst.clone(), x, "PTR-of-an-instance-found-but-never-resolved".to_string()));
+                                break;
+                            }
+                        }
+                    }
                     continue;
                 }
                 let recs = run.store.records_at(now);
@@ -262,6 +279,9 @@ impl Scn {
                 BEv::Found(_, full) => {
                     if let Some((_, st)) = run.insts.iter_mut().find(|(k, _)| dotted(k) == *full) {
                         st.found = true;
+                        if !st.reported {
+                            st.found_only = true;
+                        }
                     }
                 }
                 BEv::Resolved(r) => {
@@ -284,6 +304,7 @@ impl Scn {
                             run.viols.push(viol(format!("C04|ServiceResolved-before-ServiceFound|{tag}"), r.fullname.clone()));
                         }
                         st.reported = true;
+                        st.found_only = false;
                         st.removed_at = None;
                     }
                 }
@@ -303,6 +324,7 @@ impl Scn {
                         }
                         let st = run.insts.get_mut(&k).unwrap();
                         st.reported = false;
+                        st.found_only = false;
                         st.removed_at = Some(*t);
                     }
                 }
@@ -323,6 +345,7 @@ impl Scn {
                 // keep the bookkeeping in step with the statement
                 if let Some(st) = run.insts.get_mut(&inst) {
                     st.reported = false;
+                    st.found_only = false;
                 }
             }
         }
